@@ -25,6 +25,12 @@ pub fn cfg() -> GenCfg {
     GenCfg { no_empty_containers: true, delete: false, no_toplevel_subsume_delete: true, one_container_sort_per_table: true, no_container_func_keys: true, ..cfg_all() }
 }
 
+/// the main stage's exclusions, but lattice functions may be keyed by containers of e-classes (tables with an
+/// eq-container column and no eq-sort column)
+pub fn cfg_cont_keys() -> GenCfg {
+    GenCfg { no_container_func_keys: false, ..cfg() }
+}
+
 /// everything the encoder declares supported, including the triggers of the known findings (tolerated by signature)
 pub fn cfg_all() -> GenCfg {
     GenCfg { subsume: true, delete: true, containers: true, costs: true, extract_cmds: true, push_pop: true, rule_opts: false, max_cmds: 12, min_cmds: 4, max_run: 3, ..GenCfg::default() }
@@ -302,6 +308,7 @@ pub fn replay(rep: &Report, stage: &str, j: &serde_json::Value) -> i32 {
         "corpus" => crate::registry::replay_stage(rep, &CorpusC11, j),
         "text" => crate::registry::replay_stage(rep, &TextStage, j),
         "encodings-all-features" => crate::registry::replay_stage(rep, &C11 { cfg: cfg_all(), name: "encodings-all-features" }, j),
+        "encodings-container-keyed-functions" => crate::registry::replay_stage(rep, &C11 { cfg: cfg_cont_keys(), name: "encodings-container-keyed-functions" }, j),
         _ => crate::registry::replay_stage(rep, &C11 { cfg: cfg(), name: "encodings" }, j),
     }
 }
@@ -317,6 +324,9 @@ pub fn run(rep: &Report) {
     let st = C11 { cfg: cfg(), name: "encodings" };
     rep.run_regressions(&st);
     rep.explore(&st, rep.tier.pick(1200, 12_000), 500);
+    let ck = C11 { cfg: cfg_cont_keys(), name: "encodings-container-keyed-functions" };
+    rep.run_regressions(&ck);
+    rep.explore(&ck, rep.tier.pick(700, 8000), 500);
     let all = C11 { cfg: cfg_all(), name: "encodings-all-features" };
     rep.run_regressions(&all);
     rep.explore(&all, rep.tier.pick(600, 6000), 500);
